@@ -74,6 +74,17 @@ CHECKS = {
         note="Bounded datagram lengths; whole-system statement follows from the atomicity of segments between suspending "
              "awaits (assumption).",
         ref="5/C07"),
+    "C08": dict(
+        text="One step of the real GeckoAsyncSpaMan._handle_event from every invariant-satisfying manager state (10 states x "
+             "facade/spa/descriptors/sensors) for every enabled event, against the transition table transcribed from the "
+             "docstrings; invariants re-established (CONNECTED only with a live facade on a connected spa, facade only with "
+             "a connected spa), ready/teardown bracket conditions and status text at every delivery; real async_reset "
+             "(three entry points) from every state; locate and connect brackets around phase doubles that return, raise "
+             "or emit any allowed sub-event prefix; pairs of concurrent runtime events with a suspending client handler.",
+        note="Control-state exploration by the engine's exhaustive choice mechanism (data is symbolic only for radio "
+             "values); inductive for sequential histories; concurrency covered for event pairs from CONNECTED only. "
+             "I/O phases and the facade constructor are doubles.",
+        ref="5/C08"),
     "C11": dict(
         text="Construction of the real GeckoAsyncFacade for all 895 shipped combinations (concrete, maximally wired block); "
              "then, per representative of every facade-relevant table signature, the block is replaced by a fully symbolic "
